@@ -1,6 +1,7 @@
 package circuit
 
 import (
+	"io"
 	"math/big"
 
 	"github.com/markkurossi/mpc/env"
@@ -111,12 +112,49 @@ func verifCircuit(n0, n1, ng int, outs []int, wiring [][2]int, free []bool) *Cir
 // verifC02Run runs the real Garbler and Evaluator over the real p2p.Conn
 // pipe with the ideal OT and checks both results against Compute.
 func verifC02Run(n0, n1, ng int, outs []int, wiring [][2]int, free []bool) {
+	verifC02RunF(n0, n1, ng, outs, wiring, free, false)
+}
+
+// verifFragPipe is an in-memory duplex transport whose Read returns at most
+// `max` bytes per call (a TCP stream that delivers the bytes in small
+// segments): the property quantifies over transport fragmentation.
+type verifFragPipe struct {
+	r   *io.PipeReader
+	w   *io.PipeWriter
+	max int
+}
+
+func (p *verifFragPipe) Read(b []byte) (int, error) {
+	if len(b) > p.max {
+		b = b[:p.max]
+	}
+	return p.r.Read(b)
+}
+func (p *verifFragPipe) Write(b []byte) (int, error) { return p.w.Write(b) }
+func (p *verifFragPipe) Close() error {
+	p.r.Close()
+	return p.w.Close()
+}
+
+func verifFragConns(max int) (*p2p.Conn, *p2p.Conn) {
+	var a, b verifFragPipe
+	a.r, b.w = io.Pipe()
+	b.r, a.w = io.Pipe()
+	a.max, b.max = max, max
+	return p2p.NewConn(&a), p2p.NewConn(&b)
+}
+
+func verifC02RunF(n0, n1, ng int, outs []int, wiring [][2]int, free []bool, frag bool) {
 	split := true
 	c := verifCircuit(n0, n1, ng, outs, wiring, free)
 	x := verifBits("x", n0, true)
 	y := verifBits("y", n1, true)
 	xs, ys := new(big.Int).Set(x), new(big.Int).Set(y)
 	gc, ec := p2p.Pipe()
+	if frag {
+		// every read of both transports returns at most max bytes, max any of 1..7
+		gc, ec = verifFragConns(int(zzverif.Concrete(uint64(zzverif.Int("fragment.max", 1, 7)))))
+	}
 	oti := &verifIdealOT{ch: make(chan []ot.Wire, 1)}
 	type res struct {
 		r   []*big.Int
@@ -144,6 +182,7 @@ func verifC02Run(n0, n1, ng int, outs []int, wiring [][2]int, free []bool) {
 	zzverif.Reach("end")
 }
 
+func verifC02AFrag() { verifC02RunF(1, 1, 1, []int{1}, nil, nil, true) }
 func verifC02A() { verifC02Run(1, 1, 1, []int{1}, nil, nil) }
 func verifC02B() { verifC02Run(2, 1, 2, []int{1, 1}, [][2]int{{0, 2}, {1, 3}}, []bool{false, true}) }
 func verifC02C() { verifC02Run(1, 2, 2, []int{2}, [][2]int{{0, 1}, {3, 2}}, []bool{true, false}) }
